@@ -112,6 +112,7 @@ def parse_pm(op):
 
 class C07(flow.Spec):
     pid = "C07"
+    source_files = ('tlx/algorithm/parallel_multiway_merge.hpp', 'tlx/algorithm/parallel_multiway_merge.cpp', 'tlx/algorithm/multiway_merge_splitting.hpp', 'tlx/algorithm/multisequence_partition.hpp')
     harness = dict(name="c07", sources=["c07.cpp"], repo_sources=["tlx/algorithm/parallel_multiway_merge.cpp"])
     nontrivial_rule = ("a `pm` operation is non-trivial when it ran on the parallel path with >= 2 non-empty thread "
                        "windows and some key occurs in two different input sequences on both sides of a window "
@@ -198,8 +199,10 @@ class C07(flow.Spec):
     def cases(self, ctx, seed, tier, round_no=0):
         rng = random.Random(seed * 1000003 + round_no * 7919 + 7)
         n = 3000 if tier == "quick" else 12000
+        if tier != "quick" and ctx.tier == "quick":
+            n = 6000          # deeper validation requested by the flow (modelled sources changed) inside the quick tier
         cs = []
-        if tier != "quick" and round_no == 0:
+        if tier != "quick" and ctx.tier != "quick" and round_no == 0:
             self._tsan(ctx, seed)
         for i in range(n):
             lines = [f"case c{round_no}_{i}"]
